@@ -24,6 +24,9 @@ Check (C14_bijection :
   (forall t, w_alive tgt t = true -> exists e, same_marker src tgt e t) /\
   (forall e t1 t2, same_marker src tgt e t1 -> same_marker src tgt e t2 -> t1 = t2) /\
   (forall e1 e2 t, same_marker src tgt e1 t -> same_marker src tgt e2 t -> e1 = e2)).
+Check (C14_entity_count :
+  forall src nc d d', Inv src -> ser_data_spec src nc d -> Permutation d d' ->
+  length (l_entities (sl_life (deserialize sl_empty d'))) = length d).
 Check (C14_serialize_data_spec :
   forall w nc d, Inv w -> serialize w nc = Some d -> ser_data_spec w nc d).
 Check (C14_recursive_closure :
